@@ -293,9 +293,36 @@ pub proof fn lemma_stack_close(code: Seq<u8>, q: int, stack: Seq<usize>)
 
 pub open spec fn str_bytes(s: &str) -> Seq<u8> { s.spec_bytes() }
 
+/// the canonical run of `code` from `c0` reaches a halted configuration
+pub open spec fn canon_halts(code: Seq<u8>, w: nat, orc: Oracle, c0: Cfg) -> bool {
+    exists|k: nat| halted(code, #[trigger] canon_run(code, w, orc, c0, k))
+}
+
+/// once halted, always halted (canon_run stutters)
+pub proof fn lemma_halted_stable(code: Seq<u8>, w: nat, orc: Oracle, c0: Cfg, k: nat, j: nat)
+    requires halted(code, canon_run(code, w, orc, c0, k)), k <= j
+    ensures canon_run(code, w, orc, c0, j) == canon_run(code, w, orc, c0, k)
+    decreases j
+{
+    if j > k {
+        lemma_halted_stable(code, w, orc, c0, k, (j - 1) as nat);
+    }
+}
+
+/// a configuration that is not yet halted comes strictly before every halting step count
+pub proof fn lemma_not_halted_before(code: Seq<u8>, w: nat, orc: Oracle, c0: Cfg, n: nat, big_n: nat)
+    requires !halted(code, canon_run(code, w, orc, c0, n)), halted(code, canon_run(code, w, orc, c0, big_n))
+    ensures n < big_n
+{
+    if big_n <= n {
+        lemma_halted_stable(code, w, orc, c0, big_n, n);
+    }
+}
+
 //@extract src/exec/inplace.rs :: struct InplaceInterpreter
 //@extract src/exec/inplace.rs :: impl<C: CellType> InplaceInterpreter<'_, C> { fn execute_in }
 //@extract src/exec/inplace.rs :: impl<C: CellType> InplaceInterpreter<'_, C> { fn execute_in } #limited
+//@extract src/exec/inplace.rs :: impl<C: CellType> InplaceInterpreter<'_, C> { fn execute_in } #total
 
 } // verus!
 fn main() {}
